@@ -96,3 +96,19 @@ claim("C11", "other",
       "rational-function identity on extracted block entries (R-ALG), placement/prefactor index agreement (R-IDX), guard and "
       "loop-domain rules, save ordering (R-SAVE)",
       "DESIGN.md section 4, C11")
+
+claim("C02", "other",
+      "Decides the form of the computation for all cells, displacements and masks: remove_pbc's return term is well-typed in a "
+      "row-vector coordinate-frame system (R:(Pt,Cart), H:(Frac,Cart); inverse/transposes swap sorts; products contract equal "
+      "sorts; the mask multiplies fractional components; rounding is to nearest, not directed) and equals "
+      "R - (mask (.) nearest(R H^-1)) H in non-commutative matrix algebra. Hence the result differs from the input by an "
+      "integer combination of the periodic cell vectors, non-periodic fractional components are untouched and periodic ones "
+      "are nearest-rounded into [-1/2, 1/2]. All 27 call sites are checked for (displacement, cell of a snapshot that supplied "
+      "a position, caller's mask). Not decided: behaviour at exact half-cell ties, idempotence and shortest-image on actual "
+      "floats (consequences of the form in exact arithmetic), np.linalg.inv accuracy.",
+      "Trusted: numpy dot/inv/rint semantics; the frame-typing and algebra grammars in pmsa/checks/c02.py (other forms give "
+      "ANALYSIS-ERROR). When the identity fails the extracted term - not the repository function - is evaluated on concrete "
+      "small matrices solely to print a witness.",
+      "coordinate-frame type inference on the value graph (R-FRAME), non-commutative normal form identity (R-ALG), "
+      "call-site argument-role rule over the whole package (R-PBC)",
+      "DESIGN.md section 4, C02")
